@@ -38,7 +38,6 @@ theorem delete_live {r : Router} {L : List LiveT} (hreg : Reg r.root L) (hrc : R
     RcInv (r.delete lt.template).2 (L.filter (fun x => x.template != lt.template)) := by
   have hp := hreg.parsed lt hlt
   have hwf := parse_wf hp
-  have hd := hrc.distinct lt hlt
   -- validation passes
   have hfound : ∀ e ∈ lt.exps, ∃ i, Node.find r.root e.2 = some i ∧ infoOK lt e i := hreg.complete lt hlt
   have hm : mismatchOf r.root lt.template lt.exps = none := by
@@ -69,8 +68,9 @@ theorem delete_live {r : Router} {L : List LiveT} (hreg : Reg r.root L) (hrc : R
         intro e he
         obtain ⟨i, hf, hok⟩ := hfound e he
         exact ⟨i, hf, hcells e he i hf, hok.2.1⟩
-      obtain ⟨h1, _, h3⟩ := deleteAll_shared k lt.data lt.exps r.root r.rc none hreg.shp hwf hd hpres hrck hne
-      refine ⟨h1, ?_⟩
+      obtain ⟨h1, _, _, h3⟩ := deleteAll_shared k lt.data lt.exps r.root r.rc none [] hreg.shp hwf
+        (by intro e _ h; cases h) (fun e he _ => hpres e he) hrck
+      refine ⟨h1 (nkeys_pos hne), ?_⟩
       intro k' hk'
       apply h3
       intro heq
@@ -106,7 +106,7 @@ theorem delete_live {r : Router} {L : List LiveT} (hreg : Reg r.root L) (hrc : R
         rw [hok.1] at this
         exact hxt this
       rw [if_neg this]
-    refine ⟨?_, ?_, ?_, ?_⟩
+    refine ⟨?_, ?_, ?_⟩
     · intro x hx hlen e he i hf
       obtain ⟨hx1, hx2⟩ := List.mem_filter.1 hx
       have hxt : x.template ≠ lt.template := by simpa using hx2
@@ -135,5 +135,4 @@ theorem delete_live {r : Router} {L : List LiveT} (hreg : Reg r.root L) (hrc : R
       rw [hold x1 hx1a (by simpa using hx1b) e1 he1] at hf1
       rw [hold x2 hx2a (by simpa using hx2b) e2 he2] at hf2
       exact hrc.sep x1 hx1a x2 hx2a e1 he1 e2 he2 i1 i2 k hf1 hf2 hc1 hc2
-    · intro x hx
-      exact hrc.distinct x (List.mem_filter.1 hx).1
+
